@@ -287,3 +287,121 @@ Example sensitive_example :
   map q_headers (fst (run f9_cfg false GET f9_uri (Some [auth; acc]) f9_resps)) =
   [Some [auth; acc]; Some [acc]; Some [acc]].
 Proof. vm_compute. reflexivity. Qed.
+
+(** * several chains through one agent: the interleaving cannot matter *)
+Section InterleavedFacts.
+  Variable cfg : config.
+
+  Lemma follow_cons : forall r rest method orig cur hs count,
+    follow cfg false (r :: rest) method orig cur hs count =
+    let '(reqs1, out1) := follow cfg false [r] method orig cur hs count in
+    match reqs1 with
+    | q :: _ =>
+        let '(reqs2, out2) := follow cfg false rest (q_method q) orig (q_uri q) (q_headers q) (count + 1) in
+        (q :: reqs2, out2)
+    | [] => ([], out1)
+    end.
+  Proof.
+    intros. rewrite (follow_step cfg false r rest), (follow_step cfg false r []).
+    destruct (step cfg false r method orig cur hs count) as [o | m location hs']; [reflexivity|].
+    cbn [follow q_method q_uri q_headers].
+    destruct (follow cfg false rest m orig location hs' (count + 1)); reflexivity.
+  Qed.
+
+  Fixpoint iter {A} (n : nat) (f : A -> A) (x : A) : A :=
+    match n with O => x | S n' => iter n' f (f x) end.
+
+  Lemma advance_done : forall st, is_waiting (c_out st) = false -> advance cfg st = st.
+  Proof. intros st H. unfold advance. now rewrite H. Qed.
+
+  Lemma iter_advance_done : forall n st, is_waiting (c_out st) = false -> iter n (advance cfg) st = st.
+  Proof. induction n as [|n IH]; intros st H; [reflexivity|]. cbn. rewrite advance_done by assumption. now apply IH. Qed.
+
+  Lemma iter_advance_empty : forall n st, c_left st = [] -> iter n (advance cfg) st = st.
+  Proof.
+    induction n as [|n IH]; intros st H; [reflexivity|]. cbn.
+    assert (E : advance cfg st = st) by (unfold advance; rewrite H; now destruct (negb _)).
+    rewrite E. now apply IH.
+  Qed.
+
+  (** answering a chain [n] times = following the first [n] responses of its script *)
+  Lemma iter_advance_follow : forall n st,
+    c_out st = Waiting ->
+    let F := follow cfg false (firstn n (c_left st)) (c_method st) (c_orig st) (c_cur st) (c_hs st) (c_count st) in
+    c_reqs (iter n (advance cfg) st) = c_reqs st ++ fst F /\ c_out (iter n (advance cfg) st) = snd F.
+  Proof.
+    induction n as [|n IH]; intros st Hw; cbn zeta.
+    - cbn. rewrite app_nil_r. auto.
+    - destruct (c_left st) as [|r rest] eqn:El.
+      + rewrite iter_advance_empty by assumption. cbn. rewrite app_nil_r. auto.
+      + cbn [firstn]. rewrite follow_cons.
+        cbn [iter]. unfold advance at 2 4. rewrite Hw, El. cbn [is_waiting negb].
+        destruct (follow cfg false [r] (c_method st) (c_orig st) (c_cur st) (c_hs st) (c_count st))
+          as [reqs1 out1] eqn:E1.
+        destruct reqs1 as [|q reqs1'].
+        * (* the chain ended with this response *)
+          assert (Ho : is_waiting out1 = false).
+          { rewrite (follow_step cfg false r []) in E1.
+            destruct (step cfg false r (c_method st) (c_orig st) (c_cur st) (c_hs st) (c_count st)) as [o|m l h] eqn:Es.
+            - inversion E1; subst. unfold step in Es.
+              destruct (memN (p_code r) (redirect_codes cfg)).
+              + destruct (eqb_bytes (c_method st) GET || eqb_bytes (c_method st) HEAD); [|inversion Es; reflexivity].
+                destruct (limit cfg <=? c_count st); [inversion Es; reflexivity|].
+                destruct (p_locations r); inversion Es; reflexivity.
+              + destruct (memN (p_code r) (see_other_codes cfg)); [|inversion Es; reflexivity].
+                destruct (limit cfg <=? c_count st); [inversion Es; reflexivity|].
+                destruct (p_locations r); inversion Es; reflexivity.
+            - cbn in E1. inversion E1. }
+          rewrite iter_advance_done by (cbn; assumption). cbn. rewrite app_nil_r. auto.
+        * (* a redirect was followed *)
+          assert (Ho : out1 = Waiting).
+          { rewrite (follow_step cfg false r []) in E1.
+            destruct (step cfg false r (c_method st) (c_orig st) (c_cur st) (c_hs st) (c_count st)) as [o|m l h].
+            - inversion E1.
+            - cbn in E1. inversion E1. reflexivity. }
+          subst out1.
+          set (st' := mkC rest (q_method q) (c_orig st) (q_uri q) (q_headers q) (c_count st + 1) (c_reqs st ++ [q]) Waiting).
+          destruct (IH st' eq_refl) as [H1 H2]. cbn zeta in H1, H2. cbn [st' c_left c_method c_orig c_cur c_hs c_count c_reqs] in H1, H2.
+          destruct (follow cfg false (firstn n rest) (q_method q) (c_orig st) (q_uri q) (q_headers q) (c_count st + 1))
+            as [reqs2 out2].
+          cbn [fst snd] in *. rewrite H1, H2. rewrite <- app_assoc. auto.
+  Qed.
+
+  Lemma update_nth_nth : forall {A} i j (f : A -> A) l,
+    nth_error (update_nth i f l) j = if Nat.eqb i j then option_map f (nth_error l j) else nth_error l j.
+  Proof.
+    intros A i. induction i as [|i IH]; intros j f l; destruct l as [|x l]; destruct j; cbn; try reflexivity.
+    - now destruct (Nat.eqb i j).
+    - apply IH.
+  Qed.
+
+  (** chain [j] after any schedule: its own state, advanced as many times as it was answered *)
+  Lemma sched_run_nth : forall sched sts j,
+    nth_error (sched_run cfg sched sts) j
+    = option_map (iter (count_occ Nat.eq_dec sched j) (advance cfg)) (nth_error sts j).
+  Proof.
+    induction sched as [|i sched IH]; intros sts j.
+    - cbn. now destruct (nth_error sts j).
+    - cbn [sched_run count_occ]. rewrite IH, update_nth_nth.
+      destruct (Nat.eq_dec i j) as [-> | Hne].
+      + rewrite Nat.eqb_refl. destruct (nth_error sts j); reflexivity.
+      + apply Nat.eqb_neq in Hne. rewrite Hne. reflexivity.
+  Qed.
+
+  (** ... which is the chain run on its own against the responses it has been given *)
+  Lemma interleaving_independent : forall sched chains j m u hs resps,
+    nth_error chains j = Some (m, u, hs, resps) ->
+    let sts := map (fun c : bytes * bytes * option headers * list response =>
+                      let '(m, u, hs, resps) := c in c_start m u hs resps) chains in
+    exists st, nth_error (sched_run cfg sched sts) j = Some st
+               /\ (c_reqs st, c_out st) = run cfg false m u hs (firstn (count_occ Nat.eq_dec sched j) resps).
+  Proof.
+    intros sched chains j m u hs resps Hj sts.
+    rewrite sched_run_nth. unfold sts. rewrite nth_error_map, Hj. cbn [option_map].
+    eexists. split; [reflexivity|].
+    destruct (iter_advance_follow (count_occ Nat.eq_dec sched j) (c_start m u hs resps) eq_refl) as [H1 H2].
+    cbn zeta in H1, H2. cbn [c_start c_left c_method c_orig c_cur c_hs c_count c_reqs] in H1, H2.
+    rewrite H1, H2. unfold run.
+    destruct (follow cfg false (firstn (count_occ Nat.eq_dec sched j) resps) m u u hs 0). reflexivity.
+  Qed.
+End InterleavedFacts.
